@@ -1,5 +1,6 @@
 import NeumannModel.Parse.FullRound
 import NeumannModel.Parse.FullTotal
+import NeumannModel.Parse.FullDeep
 /-
   C15 — property theorems for the COMPLETE expression grammar model (`Parse/Full.lean`): the Pratt
   loop together with the postfix level (`IS [NOT] NULL`, `[NOT] IN (…)`, `[NOT] BETWEEN … AND …`,
@@ -84,6 +85,33 @@ theorem full_round_trip (mode : Mode) (extra : E → Bool) (e : E)
   rw [← run_done_unique mode hd (run_finished mode _)]
   unfold init; rw [hn]; rfl
 
+/-- The depth hypothesis is exact: a print that needs more than `MAX_DEPTH` nested frames is
+    rejected with `TooDeep` — never mis-parsed, never another error — whichever construct the
+    nesting goes through (parentheses, prefix operators, right operands, BETWEEN bounds, LIKE
+    patterns, argument / array / tuple / IN lists, CASE parts, in any mixture). -/
+theorem full_too_deep (mode : Mode) (extra : E → Bool) (e : E) (h : MAX_DEPTH < framesWith extra e) :
+    ∃ k, parse mode (printWith extra e) = .error (.tooDeep k) := by
+  obtain ⟨k, n, hn⟩ := TDE mode extra e 0 [] [] (printWith extra e) (by simp) (Nat.zero_le _)
+    (Nat.zero_le _) (by simpa using h)
+  have hd : isDone (run mode n (init (printWith extra e))) := by
+    unfold init; rw [hn]; exact ⟨_, rfl⟩
+  refine ⟨k, ?_⟩
+  unfold parse parseWith
+  rw [← run_done_unique mode hd (run_finished mode _)]
+  unfold init; rw [hn]; rfl
+
+/-- …so the round trip holds exactly when the print fits the depth limit. -/
+theorem full_round_trip_iff (mode : Mode) (extra : E → Bool) (e : E) :
+    parse mode (printWith extra e) = .ok e ↔ framesWith extra e ≤ MAX_DEPTH := by
+  constructor
+  · intro h
+    apply Nat.le_of_not_lt
+    intro hlt
+    obtain ⟨k, hk⟩ := full_too_deep mode extra e hlt
+    rw [hk] at h
+    cases h
+  · exact full_round_trip mode extra e
+
 /-- Precedence / associativity / postfix correctness: minimal parenthesisation parses back. -/
 theorem full_printMin (mode : Mode) (e : E) (h : framesMin e ≤ MAX_DEPTH) :
     parse mode (printMin e) = .ok e :=
@@ -120,6 +148,22 @@ set_option maxRecDepth 20000 in
 example : parse .expr (printMin sample) = .ok sample := by rfl
 set_option maxRecDepth 20000 in
 example : parse .stmt (printAll sample) = .ok sample := by rfl
+-- 64 nested arrays need 65 frames: the hypothesis of `full_too_deep` is satisfiable, and the limit is
+-- exact for a mixture of constructs (`[ f( CASE WHEN - … `)
+def nestArr : Nat → E
+  | 0 => .lit 0
+  | n + 1 => .array (.cons (nestArr n) .nil)
+set_option maxRecDepth 20000 in
+example : MAX_DEPTH < framesMin (nestArr 64) := by decide
+set_option maxRecDepth 20000 in
+example : framesMin (nestArr 63) ≤ MAX_DEPTH := by decide
+def nestMix : Nat → E
+  | 0 => .lit 0
+  | n + 1 => .array (.cons (.call (.fn 1) false (.cons
+      (.case .none (.un .neg (nestMix n)) (.lit 2) .nil .none) .nil)) .nil)
+set_option maxRecDepth 20000 in
+example : framesMin (nestMix 16) = 65 ∧ framesMin (nestMix 15) = 61 := by decide
+
 -- the postfix level in unparenthesised input: IS NULL attaches to the nearest operand, a BETWEEN
 -- bound stops at `*`, NOT before LIKE negates the LIKE, NOT elsewhere is the prefix operator
 example : parse .expr [.lit 1, .op .mul, .lit 2, .isKw, .notKw, .null] =
